@@ -25,6 +25,55 @@ def per_socket_protocol(ctx: Any, R: str, statement: str) -> Ob:
     return ob(R, eng, lam[0] if lam else 'protocol factory of create_datagram_endpoint', statement, ok, '' if ok else 'the factory does not construct a new AsyncListener for each socket')
 
 
+def _guard_anatomy(ctx: Any) -> Tuple[Any, str, str, str, Any]:
+    f = ctx.prog.func(PD)
+    me = f.params[0]
+    p_now, p_data = f.params[3], f.params[4]
+    dispatch = {'DNSIncoming': 'PARSE', 'async_updates_from_response': 'RESPONSE', 'handle_query_or_defer': 'QUERY'}
+
+    def eff(node: Any, evl: Any) -> List[Any]:
+        out = []
+        for c in fd.node_calls(node, evl):
+            nm = call_name(c)
+            if nm in dispatch:
+                out.append(dispatch[nm])
+        if node.kind == 'stmt':
+            for t, st in attr_stores(node.ast):
+                if self_attr(t, me) in MEM:
+                    out.append('MEM:' + t.attr)
+        return out
+
+    return f, me, p_now, p_data, eff
+
+
+def memory_obligations(ctx: Any, R: str) -> List[Ob]:
+    """The duplicate memory (bytes, time, message) is written as a whole before any dispatch on every path that is not
+    suppressed, also for an invalid message: a partly updated memory compares a later datagram's bytes with one
+    datagram and its time and QU-ness with another."""
+    f, me, p_now, p_data, eff = _guard_anatomy(ctx)
+    obs: List[Ob] = []
+    # memory stored before dispatch, also for invalid messages
+    for valid in (True, False):
+        for is_query in (True, False):
+            atoms = {p_data: b'new', f'{me}.data': b'old', '.valid': valid, '.is_query()': is_query, '.has_entries': True, 'debug': False, '.truncated': False}
+            oc, und = traces(ctx, f, atoms, eff, loop_bound=1)
+            ok = bool(oc)
+            for t in oc:
+                seq = [x for x in strip_ret(t)]
+                mems = [i for i, x in enumerate(seq) if str(x).startswith('MEM')]
+                disp = [i for i, x in enumerate(seq) if x in ('RESPONSE', 'QUERY')]
+                if {seq[i] for i in mems} != {'MEM:' + m for m in MEM}:
+                    ok = False
+                if disp and mems and max(mems) > min(disp):
+                    ok = False
+                if valid and not disp and is_query is False:
+                    ok = False
+                if not valid and disp:
+                    ok = False
+            obs.append(ob(R, f, f'not a duplicate: valid={valid} query={is_query}', 'the datagram is remembered (bytes, time, message) before any dispatch; an invalid message is remembered and not dispatched', ok, str(sorted(map(str, oc)))[:300]))
+    return obs
+
+
 @rule('C16.GUARD', 'D', expect_min=20)
 def guard(ctx: Any) -> List[Ob]:
     """The duplicate guard of the datagram processor: the test comes before every
@@ -92,25 +141,7 @@ def guard(ctx: Any) -> List[Ob]:
         oc, _ = traces(ctx, f, atoms, eff, loop_bound=1)
         suppressed = {not any(x in ('PARSE', 'RESPONSE', 'QUERY') for x in strip_ret(t)) for t in oc}
         obs.append(ob(R, f, f'identical datagram {delta} ms after the first', f'{"ignored" if want else "processed"}', suppressed == {want}))
-    # memory stored before dispatch, also for invalid messages
-    for valid in (True, False):
-        for is_query in (True, False):
-            atoms = {p_data: b'new', f'{me}.data': b'old', '.valid': valid, '.is_query()': is_query, '.has_entries': True, 'debug': False, '.truncated': False}
-            oc, und = traces(ctx, f, atoms, eff, loop_bound=1)
-            ok = bool(oc)
-            for t in oc:
-                seq = [x for x in strip_ret(t)]
-                mems = [i for i, x in enumerate(seq) if str(x).startswith('MEM')]
-                disp = [i for i, x in enumerate(seq) if x in ('RESPONSE', 'QUERY')]
-                if {seq[i] for i in mems} != {'MEM:' + m for m in MEM}:
-                    ok = False
-                if disp and mems and max(mems) > min(disp):
-                    ok = False
-                if valid and not disp and is_query is False:
-                    ok = False
-                if not valid and disp:
-                    ok = False
-            obs.append(ob(R, f, f'not a duplicate: valid={valid} query={is_query}', 'the datagram is remembered (bytes, time, message) before any dispatch; an invalid message is remembered and not dispatched', ok, str(sorted(map(str, oc)))[:300]))
+    obs.extend(memory_obligations(ctx, R))
     # what is remembered is this datagram
     vals = {t.attr: norm(st.value) for t, st in attr_stores(f.node) if self_attr(t, me) in MEM and isinstance(st, ast.Assign)}
     msgs = [st.targets[0].id for st in walk_local_ordered(f.node) if isinstance(st, ast.Assign) and isinstance(st.value, ast.Call) and call_name(st.value) == 'DNSIncoming' and isinstance(st.targets[0], ast.Name)]
